@@ -18,6 +18,20 @@ def finding_key(opname, exc, tensors, args):
     if isinstance(exc, ZeroDivisionError):
         if opname in ("div", "truediv", "itruediv_t") and len(d) > 1 and d[1] == 0: return "div_default_python_zero_division"
         if opname in ("div_s", "itruediv_s", "truediv_op_s") and args and args[0] == 0: return "div_default_python_zero_division"
+    if opname == "nan_to_num_" and isinstance(exc, RuntimeError) and "without overflow" in str(exc) and tensors:
+        t0 = tensors[0]; d0 = getattr(t0, "default", None)
+        import torch as _torch
+        if (getattr(getattr(t0, "physical", None), "dtype", None) == _torch.float32 and isinstance(d0, float) and math.isinf(d0)
+                and ((d0 > 0 and (len(args) < 2 or args[1] is None)) or (d0 < 0 and (len(args) < 3 or args[2] is None)))):
+            return "nan_to_num_default_float64_max_in_float32"
+    if isinstance(exc, RuntimeError) and "without overflow" in str(exc):
+        # a later operation trips over a default poisoned by an earlier nan_to_num_ (float64 maximum in a float32 tensor)
+        import sys as _sys, torch as _torch
+        for t0 in tensors:
+            d0 = getattr(t0, "default", None)
+            if (getattr(getattr(t0, "physical", None), "dtype", None) == _torch.float32 and isinstance(d0, float)
+                    and abs(d0) == _sys.float_info.max):
+                return "nan_to_num_default_float64_max_in_float32"
     if isinstance(exc, ValueError) and "math domain error" in str(exc):
         if opname in ("log", "log_") and d and isinstance(d[0], (int, float)) and d[0] < 0: return "log_default_python_domain_error"
         if opname == "log1p_" and d and isinstance(d[0], (int, float)) and d[0] <= -1: return "log_default_python_domain_error"
